@@ -142,6 +142,13 @@ ADD4 = {
  "C20": ("method-call census on package-level library objects", "Package-level objects shared by all runtimes are of types documented as safe for concurrent use."),
 }
 ADD5 = {
+ "C01": ("Reference-escape dataflow over the evaluators; declaration environment; finally environment", "Outside the expression evaluator entry an evaluation result reaches a return only through resolve(); declared functions close over the variable environment; the catch environment is taken off before finally."),
+ "C02": ("taint census of allocations sized by a claimed length; census of every float64-to-integer conversion", "No slice is sized by ToUint32 of a length without an upper bound test (8 known findings); float conversions are range-tested, reduced modulo a constant, or round-trip tested."),
+ "C05": ("census of every float64-to-integer conversion", "ToInt32 / ToUint32 / ToUint16 reduce modulo 2^32 / 2^16 before converting."),
+ "C07": ("sibling agreement over the defineOwnProperty slot and over the Object.* argument test; census of fields read but never stored", "Every exotic [[DefineOwnProperty]] consults extensible or delegates; the ES5 functions of Object throw for a non-object; no decision hangs on a field nothing sets."),
+ "C11": ("census of [[Put]] on freshly created objects", "The JSON wrapper objects are filled with [[DefineOwnProperty]]."),
+ "C12": ("NaN-side table for toISOString; clipped-parameter acceptance for the epoch conversions", "toISOString of an invalid date raises RangeError; time values are clipped to 8.64e15 before any conversion."),
+ "C19": ("sibling agreement of the pattern compilers' failure class; valid call-site offsets", "Both regexp compilers' failures are SyntaxErrors; the offset stored in the caller's frame is a node position (known finding for computed callees)."),
  "C04": ("separator path search over the parser's list loops", "Between two elements of a comma-separated list every parser path passes a comma test or expect(COMMA)."),
  "C15": ("reflect.Kind dataflow at every Convert; representation census of string payloads", "Every reflect Convert is numeric/string/bool to the same class, or under CanConvert, or under ConvertibleTo with a non-array target; the raw payload of a possibly-string Value never leaves a function unasserted."),
  "C16": ("reflect.Kind dataflow at every Convert; nil-safe promoted field walks", "Convert cannot panic for any script operand; fields promoted through embedded pointers are reached with FieldByIndexErr."),
